@@ -37,9 +37,12 @@ PickPresent(useq, present, d) ==
 LoVals == <<-INF, -2000, -1000, -1000, -5, 0, 0, 0, 5, 1000, 2000>>
 HiVals == <<-2000, -1000, -5, 0, 0, 5, 1000, 1000, 1000, 2000, INF>>
 CoefVals == <<-2, -1, 1, 2>>
+Or3(a, b, c) == [k |-> "or", id |-> "", ch |-> <<a, b, c>>]
 RuleU == <<RuleNone, G("g1"), G("g2"), G("g3"), And2(G("g1"), G("g2")), Or2(G("g1"), G("g2")),
            Or2(And2(G("g1"), G("g2")), G("g3")), And2(G("g1"), Or2(G("g2"), G("g3"))), Or2(G("g2"), G("g3")),
-           And2(Or2(G("g1"), G("g3")), Or2(G("g2"), G("g3")))>>
+           And2(Or2(G("g1"), G("g3")), Or2(G("g2"), G("g3"))),
+           \* a gene named more than once in one rule (isozyme lists are curated by hand)
+           Or3(G("g2"), G("g3"), G("g2")), And2(G("g1"), Or3(G("g3"), G("g4"), G("g3")))>>
 PlainRx == <<"r1", "r2", "r3", "r4">>
 
 St1(m1, k1, m2, k2) == [m \in MetU |-> IF m = m1 THEN k1 ELSE IF m = m2 THEN k2 ELSE 0]
@@ -89,7 +92,8 @@ Mix ==
                              "AddUserCons", "AddUserVar", "RemoveUserCons", "RemoveUserVar", "AddGroup", "RemoveGroup",
                              "GroupAddMembers", "GroupRemoveMembers",
                              "Copy", "Enter", "Exit", "RoundTrip", "DetachedSetBounds", "DetachedRename", "DetachedRename", "ReAddDetached", "RxnArith", "Merge", "SaveDoc", "LoadDoc", "BuildFromString", "BuildFromString",
-                             "SetFunctional", "Repair", "ReAddDetached", "ReAddDetached", "AddArith", "FixObjective", "SetAttr", "SetTolerance">>
+                             "SetFunctional", "Repair", "ReAddDetached", "ReAddDetached", "AddArith", "FixObjective", "SetAttr", "SetTolerance",
+                             "AddSBO", "Query", "Query", "Prune", "SetCompName">>
     [] Profile = "ctx" -> <<"Enter", "Enter", "Enter", "Exit", "Exit", "Exit", "AddReactions", "RemoveReactions",
                             "RemoveReactions", "AddMetabolites", "RemoveMetabolites", "AddBoundary", "RxnAddMetabolites",
                             "RxnAddMetabolites", "RxnSubtractMetabolites", "RxnIMul", "RxnIAdd", "RxnISub", "SetLB", "SetUB",
@@ -97,7 +101,7 @@ Mix ==
                             "RenameGene", "SetObjective", "SetObjCoef", "SetDirection", "SetMedium", "SwitchSolver",
                             "AddUserCons", "AddUserVar", "RemoveUserCons", "RemoveUserVar", "Helper", "Helper",
                             "DetachedSetBounds", "DetachedSetBounds", "Copy", "Merge", "BuildFromString", "SetFunctional", "RenameReaction",
-                            "RenameMetabolite", "SwitchSolver", "ReAddDetached", "ReAddDetached", "Repair", "FixObjective">>
+                            "RenameMetabolite", "SwitchSolver", "ReAddDetached", "ReAddDetached", "Repair", "FixObjective", "Query">>
     [] Profile = "ko" -> <<"GeneKnockOut", "GeneKnockOut", "GeneKnockOut", "KnockOutModelGenes", "KnockOutModelGenes",
                            "RxnKnockOut", "SetRule", "SetRule", "Enter", "Exit", "SetBounds", "AddReactions", "SetFunctional",
                            \* rules rewritten in place between knock-outs
@@ -108,12 +112,12 @@ Mix ==
                              "GroupAddMembers", "GroupRemoveMembers",
                              "RemoveGroup", "Annotate", "Annotate", "Annotate", "Analyze", "Enter", "Exit", "SwitchSolver",
                              "RxnArith", "RxnArith", "Merge", "Merge", "MergeNew", "AddArith", "AddArith", "AddArith", "SetAttr",
-                             "SetAttr", "SetTolerance", "SetTolerance">>
+                             "SetAttr", "SetTolerance", "SetTolerance", "Prune", "Prune", "Query", "AddSBO", "SetCompName", "SetCompName">>
     [] Profile = "io" -> <<"RoundTrip", "RoundTrip", "RoundTrip", "RoundTrip", "AddReactions", "RemoveReactions", "RxnAddMetabolites",
                            "SetBounds", "SetBounds", "SetLB", "SetUB", "SetRule", "SetObjective", "SetObjCoef",
                            "SetDirection", "AddBoundary", "AddGroup", "AddGroup", "GroupAddMembers", "GroupRemoveMembers", "Annotate", "Annotate", "Annotate", "RenameGene",
                            "AddMetabolites", "Copy", "SaveDoc", "SaveDoc", "LoadDoc", "LoadDoc", "SetAttr", "SetAttr",
-                           "SetAttr">>
+                           "SetAttr", "AddSBO", "Query", "SetCompName", "SetCompName">>
     [] Profile = "analyze" -> <<"Analyze", "Analyze", "Analyze", "Analyze", "FixObjective", "SetBounds", "SetObjective", "SetDirection",
                                 "RemoveReactions", "AddReactions", "GeneKnockOut", "Enter", "Exit", "RxnKnockOut">>
 
@@ -124,7 +128,8 @@ AnalysisKinds == <<"optimize", "optimize_min", "slim_optimize", "fva", "fva_loop
                    "model_summary", "metabolite_summary", "reaction_summary", "gapfill", "assess", "fva_parallel",
                    "single_gene_deletion_parallel", "find_essential_genes_parallel", "add_loopless_ctx", "medium_get">>
 Formats == <<"json", "yaml", "dict", "pickle", "sbml", "json_file", "yaml_file", "sbml_file", "json_sorted", "sbml_freplace_off">>
-HelperKinds == <<"add_pfba", "add_moma", "add_room", "fix_objective_as_constraint", "add_loopless", "add_lp_feasibility">>
+HelperKinds == <<"add_pfba", "add_moma", "add_room", "fix_objective_as_constraint", "add_loopless", "add_lp_feasibility",
+                 "custom_objective">>
 
 \* ------------------------------------------------------------- drawing one operation
 DrawSpec(C, ds) ==
@@ -183,6 +188,10 @@ DrawOp(r, S) ==
                                          spell |-> d[14] % 3]
     [] k = "SetFunctional" -> base @@ [g |-> gn, b |-> d[8] % 2 = 0]
     [] k = "Repair" -> base
+    [] k = "AddSBO" -> base
+    [] k = "SetCompName" -> base @@ [c |-> 1 + (d[8] % 3), v |-> d[9] % 4]
+    [] k = "Query" -> base
+    [] k = "Prune" -> [a |-> k, s |-> s, t |-> 3 - s, kind |-> Pick(<<"mets", "rxns">>, d[8])]
     [] k = "FixObjective" -> base
     [] k = "RxnArith" -> base @@ [r |-> rx, q |-> rx2, kind |-> Pick(<<"copy", "add", "sub", "mul">>, d[8]), k |-> Pick(<<2, -1, 3, -2>>, d[9])]
     [] k = "ReAddDetached" -> base @@ [r |-> PickPresent(RxSeq, RxU \ C.rxns, d[3])]
@@ -220,7 +229,7 @@ DrawOp(r, S) ==
     [] k = "RemoveGroup" -> base @@ [g |-> "grp1"]
     [] k \in {"GroupAddMembers", "GroupRemoveMembers"} -> base @@ [g |-> "grp1", members |-> IF d[8] % 3 = 0 THEN <<rx>> ELSE IF d[8] % 3 = 1 THEN <<mt, gn>> ELSE <<gn>>]
     [] k = "Annotate" -> base @@ [x |-> IF Profile = "io" /\ d[11] % 2 = 0 THEN "MODEL" ELSE Pick(<<rx, mt, gn, "MODEL">>, d[8]),
-                                  v |-> 1 + (d[9] % 5), via |-> d[10] % 3]
+                                  v |-> 1 + (d[9] % 6), via |-> d[10] % 3]
     [] k = "SetAttr" ->
          LET f == Pick(<<"name", "formula", "charge", "subsys", "name", "charge", "comp">>, d[8]) IN
          base @@ [field |-> f, x |-> IF f \in {"formula", "charge"} THEN mt ELSE IF f = "subsys" THEN rx
@@ -256,10 +265,13 @@ IoOps ==
   \cup {[a |-> "SaveDoc", s |-> 1, fmt |-> f] : f \in {"json", "sbml", "dict"}}
   \cup {[a |-> "LoadDoc", s |-> t] : t \in {1, 2}}
   \cup {[a |-> "Annotate", s |-> 1, x |-> "MODEL", v |-> 3, via |-> 2],
+        [a |-> "Annotate", s |-> 1, x |-> "m1", v |-> 6, via |-> 2],
+        [a |-> "Annotate", s |-> 1, x |-> "r2", v |-> 6, via |-> 2],
         [a |-> "Annotate", s |-> 1, x |-> "g1", v |-> 4, via |-> 0],
         [a |-> "SetAttr", s |-> 1, x |-> "m1", field |-> "charge", v |-> 0],
         [a |-> "SetAttr", s |-> 1, x |-> "m1", field |-> "formula", v |-> 2],
         [a |-> "SetAttr", s |-> 1, x |-> "m2", field |-> "comp", v |-> 3],
+        [a |-> "SetCompName", s |-> 1, c |-> 3, v |-> 3],
         [a |-> "SetBounds", s |-> 1, r |-> "r1", lo |-> 1500, hi |-> 2000],
         [a |-> "SetDirection", s |-> 1, dir |-> "min"]}
 \* copy vocabulary: two models (slot 2 = copy of slot 1, seed model 2), edits on either side, detached results of
@@ -273,6 +285,7 @@ CopyOps ==
    [a |-> "Annotate", s |-> 2, x |-> "g1", v |-> 2, via |-> 0],
    [a |-> "Annotate", s |-> 1, x |-> "m1", v |-> 3, via |-> 2],
    [a |-> "SetTolerance", s |-> 1, k |-> 9],
+   [a |-> "SetCompName", s |-> 2, c |-> 1, v |-> 1],
    \* a reaction of the copy is given a metabolite OBJECT of the original whose id the copy has lost
    [a |-> "RemoveMetabolites", s |-> 2, ms |-> <<"m3">>, destructive |-> FALSE, form |-> 0],
    [a |-> "RxnAddMetabolites", s |-> 2, r |-> "r1", d |-> D1("m3", 1), combine |-> TRUE, form |-> 3],
@@ -317,6 +330,7 @@ KoOps ==
         [a |-> "RemoveGenes", s |-> 1, gs |-> <<"g1">>, rr |-> FALSE, form |-> 1],
         [a |-> "RenameGene", s |-> 1, g |-> "g2", new |-> "g4", more |-> <<>>],
         [a |-> "SetRule", s |-> 1, r |-> "r3", rule |-> And2(G("g2"), G("g3")), form |-> 0],
+        [a |-> "SetRule", s |-> 1, r |-> "r3", rule |-> Or3(G("g2"), G("g3"), G("g2")), form |-> 1],
         [a |-> "Enter", s |-> 1], [a |-> "Exit", s |-> 1]}
 \* the same outside any context: a reaction object leaves the model, is renamed / edited, comes back (or a
 \* new reaction takes the identifier it gave up), the model is pickled
@@ -328,7 +342,19 @@ Det0Ops ==
    [a |-> "ReAddDetached", s |-> 1, r |-> "r1"],
    [a |-> "AddReactions", s |-> 1, shape |-> 1, specs |-> <<Spec("r1", St1("m1", -1, "m2", 1), -5, 5, G("g2"))>>],
    [a |-> "Copy", s |-> 1, t |-> 2, kind |-> "pickle"]}
+\* objective vocabulary: an analysis helper (add_pfba) or an objective the user wrote over solver variables is in
+\* place (FullPrefix); inner contexts, edits of the objective, removal of an objective reaction, analyses
+ObjOps ==
+  {[a |-> "SetObjCoef", s |-> 1, r |-> "r1", v |-> 2],
+   [a |-> "SetObjCoef", s |-> 1, r |-> "r3", v |-> 0],
+   [a |-> "SetObjective", s |-> 1, form |-> 1, d |-> [x \in RxU |-> IF x = "r2" THEN 1 ELSE 0]],
+   [a |-> "SetDirection", s |-> 1, dir |-> "min"],
+   [a |-> "Analyze", s |-> 1, kind |-> "optimize_min", arg |-> 0],
+   [a |-> "RemoveReactions", s |-> 1, rs |-> <<"r3">>, orphans |-> FALSE, form |-> 0],
+   [a |-> "SetBounds", s |-> 1, r |-> "r1", lo |-> -5, hi |-> 5],
+   [a |-> "Enter", s |-> 1], [a |-> "Exit", s |-> 1]}
 FullOps ==
+  IF FullSet \in {"objp", "objc"} THEN ObjOps ELSE
   IF FullSet = "mid" THEN
      BoundOps \cup {
         [a |-> "RxnAddMetabolites", s |-> 1, r |-> "r1", d |-> D1("m2", 1), combine |-> TRUE, form |-> 0],
@@ -384,7 +410,9 @@ FullOps ==
 FullPrefix == IF FullSet = "copy" THEN SeedOps(2, "glpk") \o <<[a |-> "Enter", s |-> 1],
                                                               [a |-> "Copy", s |-> 1, t |-> 2, kind |-> "copy"]>> ELSE
               IF FullSet = "io" THEN SeedOps(1, "glpk") \o <<[a |-> "RoundTrip", s |-> 1, fmt |-> "json"]>> ELSE
-              IF FullSet \in {"analyze", "ko", "det0"} THEN SeedOps(1, "glpk")
+              IF FullSet \in {"analyze", "ko", "det0"} THEN SeedOps(1, "glpk") ELSE
+              IF FullSet = "objp" THEN SeedOps(1, "glpk") \o <<[a |-> "Enter", s |-> 1], [a |-> "Helper", s |-> 1, kind |-> "add_pfba"]>> ELSE
+              IF FullSet = "objc" THEN SeedOps(1, "glpk") \o <<[a |-> "Enter", s |-> 1], [a |-> "Helper", s |-> 1, kind |-> "custom_objective"]>>
               ELSE SeedOps(1, "glpk") \o <<[a |-> "Enter", s |-> 1]>>
 
 Init ==
